@@ -39,8 +39,12 @@ def positional(sig):
     return [p for p in sig.parameters.values() if p.kind in (p.POSITIONAL_ONLY, p.POSITIONAL_OR_KEYWORD)]
 
 
-def contributors(res_param, res_index, inputs):
-    """Input parameters a result parameter of a merge on role-consistent inputs stands for."""
+def contributors(res_param, res_index, inputs, by_name=False):
+    """Input parameters a result parameter of a merge stands for: by name on name-aligned inputs, by positional index /
+    keyword name on role-consistent ones."""
+    if by_name:
+        return [s.parameters[res_param.name] for s in inputs if res_param.name in s.parameters
+                and s.parameters[res_param.name].kind not in (inspect.Parameter.VAR_POSITIONAL, inspect.Parameter.VAR_KEYWORD)]
     out = []
     for s in inputs:
         if res_index is not None:
@@ -71,13 +75,13 @@ def fold_ann(values):
     return acc
 
 
-def check_merge(inputs, res, viol):
+def check_merge(inputs, res, viol, by_name=False):
     pos = positional(res)
     for p in res.parameters.values():
         if p.kind in (p.VAR_POSITIONAL, p.VAR_KEYWORD):
             continue
         idx = pos.index(p) if p in pos else None
-        cs = contributors(p, idx, inputs)
+        cs = contributors(p, idx, inputs, by_name)
         if not cs:
             viol('parameter-from-nowhere', {'parameter': str(p)}, {})
             return
@@ -167,12 +171,19 @@ def merge_pairs_shard(tier, sh):
     shapes = base_shapes()
     for l in shapes[i0:i1]:
         for r in shapes:
-            if not role_consistent([l, r]):
+            kl, kr = dict((p[0], p[1]) for p in l), dict((p[0], p[1]) for p in r)
+            # by name: the same name never sits at two different positional indexes, and is never positional-only on
+            # one side while keyword-only on the other (those are unrelated parameters)
+            aligned = space.name_aligned([l, r]) and not any(
+                n in kr and {kl[n], kr[n]} == {PO, KWO} for n in kl)
+            if not (aligned or role_consistent([l, r])):
                 continue
             shared = [n for n in space.names_of(l) if n in space.names_of(r) and dict((p[0], p[1]) for p in l)[n] in (PO, POK, KWO)]
             # positions matched by index under different names also stand for each other
             lp, rp = space.positionals(l), space.positionals(r)
             matched = [(a[0], b[0]) for a, b in zip(lp, rp)] + [(n, n) for n in shared if n not in [p[0] for p in lp]]
+            if aligned:
+                matched = [(n, n) for n in shared]
             if not matched:
                 continue
             st.inc('states')
@@ -191,7 +202,7 @@ def merge_pairs_shard(tier, sh):
                     def viol(kind, detail, feat, sl=sl, sr=sr, res=res):
                         st.violation(kind, {'op': 'merge', 'inputs': [space.to_json(l), space.to_json(r)]},
                                      dict(detail, inputs=[str(sl), str(sr)], result=str(res)), dict(feat, arity=2))
-                    check_merge([sl, sr], res, viol)
+                    check_merge([sl, sr], res, viol, by_name=aligned)
         st.sample({'slice': 'merge pairs', 'left': show(l)}, 1)
     return st
 
@@ -321,7 +332,7 @@ def run(tier, seed):
         'bound': 'k<=2 named parameters per operand (pairs, embed), k<=1 (triples)',
     }
     assumptions = [
-        '"stands for": merge on role-consistent inputs (positional index, keyword name); embed/forwards/mask on inputs with disjoint named parameters (by name)',
+        '"stands for": merge on name-aligned inputs (by name: the same name never sits at two different positional indexes) and on role-consistent inputs (positional index, keyword name); embed/forwards/mask on inputs with disjoint named parameters (by name)',
         'an outer default may disappear only when a required inner positional parameter follows it in the result',
     ]
     return st, coverage, assumptions
